@@ -72,6 +72,7 @@ fn lmat_check<const E: usize, const L: usize>() {
 #[kani::proof] #[kani::unwind(6)] fn lmat_e2_l2() { lmat_check::<2, 2>() }
 #[kani::proof] #[kani::unwind(12)] fn lmat_e2_l3() { lmat_check::<2, 3>() }
 #[kani::proof] #[kani::unwind(8)] fn lmat_e1_l2() { lmat_check::<1, 2>() }
+#[kani::proof] #[kani::unwind(12)] fn lmat_e1_l3() { lmat_check::<1, 3>() }
 
 /// C13 cross-check (loop-free, all 8-bit inputs): box_muller(a, b) == (cos(2 pi b) r, sin(2 pi b) r), r = sqrt(-2 ln a), with the tagged maps of Z8
 #[kani::proof]
